@@ -453,4 +453,39 @@ can be built from `exS`/`exB`: the state after `exB`. -/
 example : (advance exS exB 8 ⟨exVals, [9], exH, exH, exH, exH⟩).lastBlockHeight = 8 ∧
     (advance exS exB 8 ⟨exVals, [9], exH, exH, exH, exH⟩).lastValidators = exVals := ⟨rfl, rfl⟩
 
+/-- the first block of the chain `exG` is accepted (hypotheses of `accepted_genesis`) -/
+example : validateBlock exG exGB = .ok () ∧ exGB.header.height = exG.initialHeight := by
+  refine ⟨?_, rfl⟩
+  rw [validateBlock_ok_flat]
+  refine ⟨by decide, by rfl, rfl, rfl, rfl, by decide, rfl, by decide, rfl, rfl, rfl, rfl, rfl, ⟨⟨0, []⟩, rfl, by rfl⟩, ?_⟩
+  exact (hasAddress_iff (vals := exVals) (by decide) 4).2 ⟨⟨4, 1⟩, .tail _ (.head _), rfl⟩
+
+/-! a two-block history meeting every hypothesis of `consecutive_applied_blocks` -/
+def exOut : AppOut := ⟨exVals, [9], exH, exH, exH, exH⟩
+def exP9 (i : Int) (ts : Int) : Option Precommit := some ⟨⟨2, 8, 1, 8, i, 0, true, false⟩, ts⟩
+def exB9 : Block :=
+  { header := { exHdr with height := 9, time := 2000, totalTxs := 14, lastBlockID := ⟨8, 32, 1, 32⟩, proposer := 6 },
+    nTxs := 2, dataHashC := exH, lastCommit := some ⟨8, [exP9 0 2000, exP9 1 2010, none, exP9 3 2020]⟩,
+    lastCommitHashC := exH }
+def exSteps : List Step := [⟨exB, 8, exOut⟩, ⟨exB9, 9, exOut⟩]
+
+example : ∃ sN, applyAll exS exSteps = some sN ∧ sN.lastBlockHeight = 9 ∧ sN.lastBlockID = 9 := by
+  have hs : StateOK exS := ⟨by decide, by decide⟩
+  have ho : ∀ st ∈ exSteps, C36.validSet st.out.validators = true := by
+    intro st hst
+    simp only [exSteps, List.mem_cons, List.mem_nil_iff, or_false] at hst
+    rcases hst with rfl | rfl <;> decide
+  have h1 : validateBlock exS exB = .ok () := by
+    rw [validateBlock_ok_flat]
+    refine ⟨by decide, by rfl, rfl, rfl, rfl, by decide, rfl, by decide, rfl, rfl, rfl, rfl, rfl, ⟨exC, rfl, by rfl⟩, ?_⟩
+    exact (hasAddress_iff (vals := exVals) (by decide) 4).2 ⟨⟨4, 1⟩, .tail _ (.head _), rfl⟩
+  have hs1 : StateOK (advance exS exB 8 exOut) := ⟨by decide, by decide⟩
+  have h2 : validateBlock (advance exS exB 8 exOut) exB9 = .ok () := by
+    rw [validateBlock_ok_flat]
+    refine ⟨by decide, by rfl, rfl, rfl, rfl, by decide, rfl, by decide, rfl, rfl, rfl, rfl, rfl,
+      ⟨⟨8, [exP9 0 2000, exP9 1 2010, none, exP9 3 2020]⟩, rfl, by rfl⟩, ?_⟩
+    exact (hasAddress_iff (vals := exVals) (by decide) 6).2 ⟨⟨6, 1⟩, .tail _ (.tail _ (.head _)), rfl⟩
+  refine ⟨finalState exS exSteps, (applied_history_valid exS hs exSteps ho _).2 ⟨⟨?_, ?_, trivial⟩, rfl⟩, rfl, rfl⟩
+  · exact (validateBlock_ok_iff exS hs exB).1 h1
+  · exact (validateBlock_ok_iff _ hs1 exB9).1 h2
 end GnoVerif.C32
